@@ -72,10 +72,6 @@ func (p *Proof) IsValid(public Public) bool {
 	if !public.Prover.ValidateCiphertexts(p.A, p.B) {
 		return false
 	}
-	// Z is encrypted below: it must lie in the plaintext range
-	if p.Z.CheckInRange(public.Prover.N()) != 1 {
-		return false
-	}
 	return true
 }
 
@@ -142,8 +138,11 @@ func (p *Proof) Verify(group curve.Curve, hash *hash.Hash, public Public) bool {
 	}
 
 	{
-		// lhs = Enc(z;v)
-		lhs := prover.EncWithNonce(p.Z, p.V)
+		// lhs = Enc(z;v), with z taken into the plaintext space ±(N-1)/2: the ciphertext only depends
+		// on z mod N, and an honest z = α + e⋅x lies outside of that range when x is large
+		N := prover.N()
+		z := new(saferith.Int).SetModSymmetric(p.Z.Mod(N), N)
+		lhs := prover.EncWithNonce(z, p.V)
 
 		// rhs = (e ⊙ X) ⊕ B
 		rhs := public.X.Clone().Mul(prover, e).Add(prover, p.B)
